@@ -899,6 +899,35 @@ package kafka
 //@   loop 1 invariant forall i :: 0 <= i && i < len(topics) ==> haskey(offsets, topics[i].Topic) && (forall j :: 0 <= j && j < len(topics[i].Partitions) ==> (exists p int :: haskey(offsets[topics[i].Topic], p) && int32(p) == topics[i].Partitions[j].Partition && offsets[topics[i].Topic][p] == topics[i].Partitions[j].Offset))
 
 //@ property C19
+
+// Conn.ReadPartitions: every partition of the metadata response is reported with exactly the leader, replicas, in-sync
+// replicas (and, from v6, offline replicas) the response lists for it, each broker id resolved through the response's
+// broker table (an id missing from the table is reported as a placeholder carrying only the id).
+//@ spec brokerSame(b any, c any) bool
+//@   macro
+//@   def b.ID == c.ID && b.Port == c.Port && same(b.Host, c.Host) && same(b.Rack, c.Rack)
+//@ spec brokerIs(b any, brokers any, id int32) bool
+//@   macro
+//@   def (haskey(brokers, id) ==> brokerSame(b, brokers[id])) && (!haskey(brokers, id) ==> b.ID == int(id) && b.Port == 0 && len(b.Host) == 0 && len(b.Rack) == 0)
+//@ spec brokersAre(out any, brokers any, ids any) bool
+//@   macro
+//@   def len(out) == len(ids) && (forall i :: 0 <= i && i < len(ids) ==> brokerIs(out[i], brokers, ids[i]))
+//@ func makeBrokers
+//@   modifies nothing
+//@   ensures fresh(result) && brokersAre(result, brokers, ids)
+//@   loop 0 modifies elems(b)
+//@   loop 0 invariant fresh(b) && len(b) == len(ids) && -1 <= rangeindex && rangeindex < len(ids)
+//@   loop 0 invariant forall i :: 0 <= i && i <= rangeindex ==> brokerIs(b[i], brokers, ids[i])
+//@ func (*Conn).readTopicMetadatav1
+//@   option noframe
+//@   modifies nothing
+//@   loop 1 invariant len(partitions) == loopentry(len(partitions)) + rangeindex + 1
+//@   loop 1 step len(partitions) >= 1 && same(partitions[len(partitions)-1].Topic, t.TopicName) && partitions[len(partitions)-1].ID == int(p.PartitionID) && (haskey(brokers, p.Leader) ==> brokerSame(partitions[len(partitions)-1].Leader, brokers[p.Leader])) && brokersAre(partitions[len(partitions)-1].Replicas, brokers, p.Replicas) && brokersAre(partitions[len(partitions)-1].Isr, brokers, p.Isr) && len(partitions[len(partitions)-1].OfflineReplicas) == 0
+//@ func (*Conn).readTopicMetadatav6
+//@   option noframe
+//@   modifies nothing
+//@   loop 1 invariant len(partitions) == loopentry(len(partitions)) + rangeindex + 1
+//@   loop 1 step len(partitions) >= 1 && same(partitions[len(partitions)-1].Topic, t.TopicName) && partitions[len(partitions)-1].ID == int(p.PartitionID) && (haskey(brokers, p.Leader) ==> brokerSame(partitions[len(partitions)-1].Leader, brokers[p.Leader])) && brokersAre(partitions[len(partitions)-1].Replicas, brokers, p.Replicas) && brokersAre(partitions[len(partitions)-1].Isr, brokers, p.Isr) && brokersAre(partitions[len(partitions)-1].OfflineReplicas, brokers, p.OfflineReplicas)
 //@ func (*Client).roundTrip
 //@   trusted sends the request through the transport and returns the response message of the same API (protocol pairing of request and response types)
 //@ func makeTime
